@@ -30,7 +30,7 @@ PARTS = [
     ("BYMONTHDAY", [1, -1, 31], ["1", "-1", "31"]),
     ("BYYEARDAY", [1, -366, 366], ["1", "-366", "366"]),
     ("BYWEEKNO", [1, -53, 53], ["1", "-53", "53"]),
-    ("BYMONTH", [1, 12, "5L"], ["1", "12", "5L"]),
+    ("BYMONTH", [1, 12, "5L", 5], ["1", "12", "5L", "5"]),
     ("BYSETPOS", [1, -1, 366], ["1", "-1", "366"]),
     ("WKST", ["SU", "MO", "SA"], ["SU", "MO", "SA"]),
     ("SKIP", ["OMIT", "FORWARD", "BACKWARD"], ["OMIT", "FORWARD", "BACKWARD"]),
